@@ -58,6 +58,7 @@ type world struct {
 	sharedReported bool
 	ops            int // ERC-20 operations executed so far
 	block          int
+	seqTxs         int
 }
 
 func coins(native *big.Int, second int64) sdk.Coins {
